@@ -365,6 +365,14 @@ pub fn check(tier: Tier, threads: usize) -> CheckOutcome {
             }
         }
     }
+    let (bp_n, bp_viol, bp_err) = backpressure(tier);
+    if let Some(e) = bp_err {
+        mach = Some(e);
+    }
+    for (sig, what) in bp_viol {
+        found.entry(sig.clone()).or_insert(Violation { signature: sig, what, replay: json!({"engine": "c12-backpressure"}) });
+    }
+    runs += bp_n;
     let samples: Vec<serde_json::Value> = streams
         .iter()
         .step_by((streams.len() / 5).max(1))
@@ -409,4 +417,80 @@ pub fn replay(v: &serde_json::Value) -> Result<Option<String>, String> {
         }
     }
     Ok(out)
+}
+
+/// Write-side back-pressure: the client pipelines many gets of a large item and does not read
+/// until the server is blocked on a full socket; every response must still arrive whole, in
+/// order, frame after frame (C11: body length = bytes that follow; C12: one response per request).
+pub fn backpressure(tier: Tier) -> (u64, Vec<(String, String)>, Option<String>) {
+    let mut out = vec![];
+    let mut n = 0u64;
+    let sizes: &[usize] = if tier == Tier::Quick { &[200_000, 1_000_000] } else { &[70_000, 200_000, 524_288, 1_000_000] };
+    let counts: &[usize] = if tier == Tier::Quick { &[12] } else { &[4, 12, 24] };
+    for &size in sizes {
+        for &gets in counts {
+            n += 1;
+            let r = (|| -> Result<Option<String>, String> {
+                let w = net::NetWorld::new(NetCfg { item_limit: 1 << 20, ..Default::default() })?;
+                let mut c = w.connect()?;
+                let value: Vec<u8> = (0..size).map(|i| (i % 251) as u8).collect();
+                c.step(&w, &Req::store(op::SET, b"big", &value, 0x0b16, 0, 0).opaque(1).bytes())?;
+                c.got.clear();
+                let mut reqs = vec![];
+                for i in 0..gets {
+                    reqs.extend(Req::get(op::GETK, b"big").opaque(0x100 + i as u32).bytes());
+                }
+                reqs.extend(Req::bare(op::NOOP).opaque(0x999).bytes());
+                c.send(&w, &reqs)?;
+                // the server runs until it is blocked on the full socket; nothing is read meanwhile
+                w.settle();
+                w.settle();
+                // now drain
+                let mut idle = 0;
+                let mut last = 0usize;
+                for _ in 0..200_000 {
+                    c.pump();
+                    w.settle();
+                    if c.got.len() == last {
+                        idle += 1;
+                        if idle > 20 {
+                            break;
+                        }
+                    } else {
+                        idle = 0;
+                        last = c.got.len();
+                    }
+                }
+                let (resps, residue) = wire::split_responses(&c.got);
+                if residue != 0 {
+                    return Ok(Some(format!("{} stray bytes after the last complete frame ({} frames parsed)", residue, resps.len())));
+                }
+                if resps.len() != gets + 1 {
+                    return Ok(Some(format!("{} responses for {} requests", resps.len(), gets + 1)));
+                }
+                for (i, r) in resps.iter().enumerate().take(gets) {
+                    if let Err(e) = wire::check_frame(op::GETK, 0x100 + i as u32, b"big", r) {
+                        return Ok(Some(format!("response #{}: {}", i, e)));
+                    }
+                    if r.value() != &value[..] {
+                        let at = r.value().iter().zip(value.iter()).position(|(a, b)| a != b).unwrap_or(r.value().len().min(value.len()));
+                        return Ok(Some(format!("response #{}: value differs from the stored one at byte {} (length {} vs {})", i, at, r.value().len(), value.len())));
+                    }
+                }
+                if resps[gets].opcode != op::NOOP || resps[gets].opaque != 0x999 {
+                    return Ok(Some("the trailing noop was not answered last".into()));
+                }
+                Ok(None)
+            })();
+            match r {
+                Ok(Some(what)) => out.push((
+                    "backpressure|get".to_string(),
+                    format!("{} pipelined getk of a {}-byte item, responses read only after the server blocked on the full socket: {}", gets, size, what),
+                )),
+                Ok(None) => {}
+                Err(e) => return (n, out, Some(e)),
+            }
+        }
+    }
+    (n, out, None)
 }
